@@ -240,6 +240,11 @@ def check(run, driver):
         if np.all(data == np.round(data)):
             pres["int64"] = data.astype(np.int64)
             pres["dataframe-int"] = pd.DataFrame(data.astype(np.int64), columns=labels)
+        # column labels in no particular order (strings, integers, tuples), and a row index that is not 0..T-1: labels are names, not positions
+        lab_alt = {"dataframe-unsorted-str": ["zeta", "alpha", "mid", "beta"][:n], "dataframe-int-desc": [30, 20, 10, 0][:n],
+                   "dataframe-tuple": [(1, "b"), (0, "z"), (1, "a"), (0, "a")][:n]}
+        for nm_, labs_ in lab_alt.items():
+            pres[nm_] = pd.DataFrame(data, columns=pd.Index(labs_, tupleize_cols=False), index=np.arange(T)[::-1] * 3)
         ref = None
         case = {"information": info, "method": method, "kw": kw, "data": data}
         for name, arg in pres.items():
@@ -248,7 +253,7 @@ def check(run, driver):
                     G = discover_network(arg, **kw)
             except Exception as e:  # noqa
                 run.prop_fail("a presentation of the same numbers is rejected", case, {"clause": "presentation", "estimator": info, "presentation": name}, repr(e)); continue
-            rename = {l: f"X{i}" for i, l in enumerate(labels)} if name.startswith("dataframe") else None
+            rename = {l: f"X{i}" for i, l in enumerate(lab_alt.get(name, labels))} if name.startswith("dataframe") else None
             g = graph_repr(G, rename)
             if ref is None:
                 ref = (name, g)
